@@ -107,6 +107,21 @@ def comp_repeated_concat_same(n, c, **_):
     return [xp.add(k, k)], ["x", "y"], [(2 * n,)]
 
 
+def comp_transpose_of_elemwise(n, c, c2, **_):
+    """the consumer iterates over ANOTHER block grid than its producer (a (n, 3) array in chunks (c, c2) transposed): same number
+    of tasks, different block coordinates"""
+    c2_ = sx.conc(c2)
+    x = G.stub_array("x", (n, 3), (c, c2_))
+    xp = _xp()
+    return [xp.permute_dims(xp.negative(x), (1, 0))], ["x"], [(3, n)]
+
+
+def comp_expand_dims_of_elemwise(n, c, **_):
+    x = G.stub_array("x", (n,), (c,))
+    xp = _xp()
+    return [xp.abs(xp.expand_dims(xp.negative(x), axis=0))], ["x"], [(1, n)]
+
+
 def comp_sum_of_elemwise(n, c, s, **_):
     x = G.stub_array("x", (n,), (c,))
     xp = _xp()
@@ -193,6 +208,8 @@ COMPOSITIONS = {
     "repeated-arg(sum(elemwise))": (comp_repeated_fused_sum, ["n", "c", "s"]),
     "diamond(concat)": (comp_repeated_concat, ["n", "c"]),
     "repeated-arg(concat)": (comp_repeated_concat_same, ["n", "c"]),
+    "transpose(elemwise)": (comp_transpose_of_elemwise, ["n", "c", "c2"]),
+    "elemwise(expand_dims(elemwise))": (comp_expand_dims_of_elemwise, ["n", "c"]),
     "sum(elemwise)": (comp_sum_of_elemwise, ["n", "c", "s"]),
     "elemwise(sum)": (comp_elemwise_of_sum, ["n", "c", "s"]),
     "mean(elemwise)": (comp_mean, ["n", "c", "s"]),
@@ -289,12 +306,13 @@ def obligations(tier):
            pb.can_fuse_primitive_ops, pb.is_fuse_candidate, cp.Plan.optimize] + c01._functions()
     N = 5 if tier == "quick" else 8
     wall = 600 if tier == "quick" else 3000
-    doms = {"n": (1, N), "c": (1, N), "c2": (1, N), "s": (2, 3), "a": (0, 2), "st": (1, 2), "r": (1, 2)}
+    doms = {"n": (1, N), "c": (1, N), "c2": (1, N if True else 3), "s": (2, 3), "a": (0, 2), "st": (1, 2), "r": (1, 2)}
     E = [("e0", 0, 2 * N), ("e1", 0, N), ("j0", 0, N), ("j1", 0, N)]
     o = []
     if tier == "quick":
         plan = [(c, "default") for c in COMPOSITIONS] + [("diamond", "simple"), ("chain", "simple"), ("chain", "fuse-all"), ("sum(elemwise)", "fuse-all"),
-                                                         ("two-inputs", "limits"), ("diamond", "limits"), ("requested-intermediate", "fuse-all"), ("chain", "fuse-only-last")]
+                                                         ("two-inputs", "limits"), ("diamond", "limits"), ("transpose(elemwise)", "simple"), ("elemwise(expand_dims(elemwise))", "simple"),
+                                                         ("transpose(elemwise)", "fuse-all"), ("sum(elemwise)", "simple"), ("requested-intermediate", "fuse-all"), ("chain", "fuse-only-last")]
     else:
         plan = [(c, z) for c in COMPOSITIONS for z in ("default", "simple", "fuse-all", "limits", "fuse-only-last")]
     for comp, optz in plan:
